@@ -141,6 +141,29 @@ StrictCone_H(M, c) == \A nu \in ConeFacets(M) : Dot(nu, c) > 0
 ClassCone(M, c) == IF ~InCone_H(M, c) THEN "exterior"
                    ELSE IF StrictCone_H(M, c) THEN "interior" ELSE "boundary"
 
+(* ---- convex hull of a finite integer point cloud (full-dimensional) -----------*)
+(* facets [nu, h]: nu.x <= h for every point, equality on d affinely independent   *)
+(* points; nu reduced to lowest terms so that equal facets coincide                 *)
+NuNorm(nu, h) == LET g == Gcd(h, GcdSeq(nu, Len(nu)))
+                 IN IF g = 0 THEN [nu |-> nu, h |-> h] ELSE [nu |-> [i \in 1..Len(nu) |-> nu[i] \div g], h |-> h \div g]
+HullFacets(P) ==
+  LET pts == SortedVecs(P)
+      m == Len(pts)
+      d == Len(pts[1])
+      cand == UNION {
+         LET base == pts[idx[1]]
+             dif == [k \in 1..(d - 1) |-> VSub(pts[idx[k + 1]], base)]
+             nu == Cross(dif, d)
+         IN IF nu = Vec(d, 0) THEN {}
+            ELSE LET hp == Dot(nu, base)
+                 IN (IF \A x \in P : Dot(nu, x) <= hp THEN {NuNorm(nu, hp)} ELSE {})
+                    \cup (IF \A x \in P : Dot(nu, x) >= hp THEN {NuNorm(VScale(-1, nu), -hp)} ELSE {})
+         : idx \in KSubsets(m, d) }
+  IN cand
+HullVerts(P) == LET F == HullFacets(P) IN {x \in P : Cardinality({f \in F : Dot(f.nu, x) = f.h}) >= Len(x)}
+InHull(F, x) == \A f \in F : Dot(f.nu, x) <= f.h
+StrictInHull(F, x) == \A f \in F : Dot(f.nu, x) < f.h
+
 (* ---- volumes ---------------------------------------------------------------*)
 RECURSIVE ProdWidth(_, _, _, _)
 ProdWidth(fr, k, lb, ub) == IF k = 0 THEN 1 ELSE (ub[fr[k]] - lb[fr[k]]) * ProdWidth(fr, k - 1, lb, ub)
